@@ -231,6 +231,11 @@ pub fn main(tier: Tier, seed: u64) -> i32 {
         }
     };
     let mut cases = cases;
+    // a choice bit that differs towards one peer (passes the KOS column check; the aBit test must catch it)
+    match crate::campaign::gen_choice_bit_cases(&cfgs) {
+        Ok(c) => cases.extend(c),
+        Err(e) => rep.machinery(e),
+    }
     // two lies inside one message (would cancel in a check that accumulates deviations)
     match crate::campaign::gen_pair_cases(&cfgs, &["dvalue", "faand", "fabitn"], if tier.is_thorough() { 24 } else { 9 }) {
         Ok(p) => cases.extend(p),
@@ -327,7 +332,75 @@ pub fn main(tier: Tier, seed: u64) -> i32 {
             rep.violation(format!("undetected:tap:{}", taps[*ti].1[0]), format!("{}: {} -> {}", cfg.name, taps[*ti].0, outs.join(" ")), json!({"kind":"tap","case":cfg.case,"corrupted":cfg.corrupted,"seed":cfg.seed,"tap":taps[*ti].1}));
         }
     }
-    rep.set("detection", json!({"faulted_runs": j.evaluations, "detected": j.detected, "trivial": j.trivial, "tap_runs": tap_cases.len(), "tap_detected": tap_detected}));
+    // ---- a choice bit used towards one peer only (inconsistent aBit input) --------------------------
+    // The cheater runs the OT extension with peer k on x' = x with one bit flipped and everything else
+    // on x.  The KOS column check passes (x' is used consistently inside that session); the aBit test
+    // of peer k must reject it - whatever the index - before k sends anything of the aShare phase.
+    // Indices relative to the batch (len = l + 120 test positions): both ends, both sides of the 64-bit
+    // words the test coefficients are unpacked from, the middle, the last index that is 63 mod 64 below
+    // l, l-1, and the last test position.
+    let idx_sel: Vec<(&str, fn(usize) -> Option<usize>)> = vec![
+        ("0", |_| Some(0)),
+        ("1", |_| Some(1)),
+        ("62", |n| (n > 62 + 120).then_some(62)),
+        ("63", |n| (n > 63 + 120).then_some(63)),
+        ("64", |n| (n > 64 + 120).then_some(64)),
+        ("mid", |n| Some((n - 120) / 2)),
+        ("last63mod64", |n| (n >= 64 + 120).then(|| ((n - 120 - 64) / 64) * 64 + 63)),
+        ("l-1", |n| Some(n - 121)),
+        ("last_test", |n| Some(n - 1)),
+    ];
+    let mut xcases = vec![];
+    for ci in 0..cfgs.len() {
+        let n = cfgs[ci].case.n();
+        for k in (0..n).filter(|k| *k != cfgs[ci].corrupted) {
+            for occ in 0..2usize {
+                for si in 0..idx_sel.len() {
+                    xcases.push((ci, k, occ, si));
+                }
+            }
+        }
+    }
+    let xres = par_map(&xcases, |w, _, (ci, k, occ, si)| {
+        let cfg = &cfgs[*ci];
+        let sel = idx_sel[*si].1;
+        let f: crate::hooks::TapFn = Arc::new(move |h: &mut Hook<'_>| {
+            if let Hook::Bools(b) = h
+                && b.len() > 120
+                && let Some(i) = sel(b.len())
+                && i < b.len()
+            {
+                b[i] = !b[i];
+            }
+        });
+        let name = format!("abit_x:{k}");
+        let (fr, r) = run_faults(cfg, vec![], vec![TapSpec { party: cfg.corrupted, name: name.clone(), occ: Some(*occ), f }], true, w);
+        // did peer k go on to a later phase after the cheater started this aBit batch?
+        let t = r.probes.iter().find(|p| p.party == cfg.corrupted && p.name == name && p.occ == *occ).map(|p| p.t);
+        let later = t.and_then(|t| r.ops.iter().find(|o| o.party == *k && o.dir == crate::exec::Dir::Send && o.issue_t > t && crate::campaign::phase_of(&o.label).is_some_and(|ph| ph >= 2)).map(|o| o.label.clone()));
+        (fr, t.is_some(), later)
+    });
+    let mut x_detected = 0u64;
+    let mut x_trivial = 0u64;
+    for ((ci, k, occ, si), (r, fired, later)) in xcases.iter().zip(xres.iter()) {
+        let cfg = &cfgs[*ci];
+        let what = format!("{}: party {} uses choice bit #{} of aBit batch {occ} flipped towards party {k} only", cfg.name, cfg.corrupted, idx_sel[*si].0);
+        let replay = json!({"kind":"tap","case":cfg.case,"corrupted":cfg.corrupted,"seed":cfg.seed,"tap":[format!("abit_x:{k}#{occ}")],"index":idx_sel[*si].0});
+        if !*fired || r.identical {
+            // no such batch, or the index does not exist in it
+            x_trivial += 1;
+            continue;
+        }
+        let outs: Vec<String> = r.outcomes.iter().enumerate().map(|(p, o)| format!("p{p}:{}({})", o.0, o.1.chars().take(50).collect::<String>())).collect();
+        if r.outcomes[*k].0 != "Err" {
+            rep.violation(format!("undetected:tap:abit_x:{}", idx_sel[*si].0), format!("{what} -> {}", outs.join(" ")), replay);
+        } else if let Some(l) = later {
+            rep.violation(format!("proceeded_on_unverified:tap:abit_x:{}", idx_sel[*si].0), format!("{what}: party {k} passed the aBit test and went on to send {l:?} -> {}", outs.join(" ")), replay);
+        } else {
+            x_detected += 1;
+        }
+    }
+    rep.set("detection", json!({"faulted_runs": j.evaluations, "detected": j.detected, "trivial": j.trivial, "tap_runs": tap_cases.len(), "tap_detected": tap_detected, "abit_choice_bit_runs": xcases.len(), "abit_choice_bit_detected_in_phase": x_detected, "abit_choice_bit_no_such_index": x_trivial}));
 
     // ---------------- (b) commit-before-reveal over explored schedules ----------------
     let budget = Budget::new(if tier.is_thorough() { 600.0 } else { 20.0 });
@@ -388,12 +461,12 @@ pub fn main(tier: Tier, seed: u64) -> i32 {
         }
     }
     rep.set("challenge_predictions_compared", json!(pred_checked));
-    rep.evaluations = j.evaluations + tap_cases.len() as u64 + sched_total + 4;
-    rep.distinct_nontrivial = j.nontrivial.len() as u64 + tap_detected;
+    rep.evaluations = j.evaluations + tap_cases.len() as u64 + xcases.len() as u64 + sched_total + 4;
+    rep.distinct_nontrivial = j.nontrivial.len() as u64 + tap_detected + x_detected;
     if rep.exhaustive.is_none() {
         rep.exhaustive = Some(true);
     }
-    rep.rule = "(a) every preprocessing message of the corrupted party (coin-toss commit/opening, Chou-Orlandi, ALSZ/KOS, aBit test, aShare commit/decommit/opened sums, HaAND, LaAND e/u/commit/hash, d-values, Beaver openings, broadcast echo): every field x position (quick: first/middle/last; thorough: every index) x {xor low/top bit, flip bool; thorough adds set-zero/ones}; paired variants for conditionally read branches; n=3 to one recipient and consistently to all; tap-based persistent liars. Oracle: honest recipients that consume the value return Err (consumption rules of DESIGN.md 2.2). (b) reveal-after-all-commits monitor on every schedule explored with the C12 explorer and on a 3-batch run. (c) predictor: challenge recomputed from coin-toss openings on the wire before the data under check is sent vs. probes of the challenge actually used (alarm on exact match only) and reuse between checks. distinct = (configuration, label/field, recipients, position); trivial = unread branch".into();
+    rep.rule = "(a) every preprocessing message of the corrupted party (coin-toss commit/opening, Chou-Orlandi, ALSZ/KOS, aBit test, aShare commit/decommit/opened sums, HaAND, LaAND e/u/commit/hash, d-values, Beaver openings, broadcast echo): every field x position (quick: first/middle/last; thorough: every index) x {xor low/top bit, flip bool; thorough adds set-zero/ones}; paired variants for conditionally read branches; n=3 to one recipient and consistently to all; tap-based persistent liars; a choice bit used towards one peer only (flipped in every column of the OT matrix as a message fault, and via a tap on the bits handed to that peer's OT session, at 9 index classes x 2 batches) - the peer must abort in the aBit test, before sending anything of the aShare phase. Oracle: honest recipients that consume the value return Err (consumption rules of DESIGN.md 2.2). (b) reveal-after-all-commits monitor on every schedule explored with the C12 explorer and on a 3-batch run. (c) predictor: challenge recomputed from coin-toss openings on the wire before the data under check is sent vs. probes of the challenge actually used (alarm on exact match only) and reuse between checks. distinct = (configuration, label/field, recipients, position); trivial = unread branch".into();
     rep.assumptions = vec![
         "cryptographic negligible-probability events are treated as impossible".into(),
         "predictor alarms only on an exact 128-bit / whole-permutation match".into(),
